@@ -561,6 +561,45 @@ pub fn c03(c: &Collector, g: &mut Guard) {
     for cr in crashes {
         c.crash(format!("E1 macro worker {} ended abnormally ({}), partition {:?}", cr.child, cr.how, cr.last_part));
     }
+    // (d2) non-ASCII characters where a final is expected (dispatch on a truncated code point)
+    let mut odd: Vec<char> = (0x80u32..0x300).filter_map(char::from_u32).collect();
+    for hi in [0x2000u32, 0x3000, 0xff00, 0x1f600, 0x10ff00] {
+        for lo in [0x37u32, 0x38, 0x63, 0x44, 0x45, 0x4d, 0x48, 0x5b, 0x5d, 0x23, 0x28, 0x07, 0x1b, 0x6d, 0x72] {
+            if let Some(ch) = char::from_u32(hi + lo) {
+                odd.push(ch);
+            }
+        }
+    }
+    let crashes = fork_map(c, 16, Duration::from_secs(crate::explore::sweep_timeout_s()), |part, cc| {
+        let mut l = E1Local::new();
+        for (i, ch) in odd.iter().enumerate() {
+            if i % 16 != part {
+                continue;
+            }
+            for w in [
+                format!("\x1b7\x1b[3;3H\x1b{}", ch),
+                format!("\x1b[5{}", ch),
+                format!("\x1b[?25{}", ch),
+                format!("\x1b#{}", ch),
+                format!("\x1b({}", ch),
+                format!("\x1b]{};a\x07", ch),
+                format!("\x1b]0;a{}", ch),
+                format!("{}", ch),
+            ] {
+                for utf8 in [true, false] {
+                    c03_word(cc, &w, utf8, &mut l, "E1.odd-finals");
+                }
+            }
+        }
+        cc.add_transitions(l.words);
+        cc.count("words", l.words);
+        cc.count("odd_final_words", l.words);
+        cc.count("words_d8_skipped", l.d8);
+        cc.outcomes(&l.outcomes);
+    });
+    for cr in crashes {
+        c.crash(format!("E1 odd-finals worker {} ended abnormally ({}), partition {:?}", cr.child, cr.how, cr.last_part));
+    }
     // (e) long inputs
     let longs = long_streams();
     let crashes = fork_map(c, 16, Duration::from_secs(crate::explore::sweep_timeout_s()), |part, cc| {
@@ -626,6 +665,7 @@ pub fn c03(c: &Collector, g: &mut Guard) {
     g.need(c, "osc_words");
     g.need(c, "macro_words");
     g.need(c, "long_words");
+    g.need(c, "odd_final_words");
     let _ = word_hash;
 }
 
@@ -1458,6 +1498,12 @@ pub fn long_streams() -> Vec<(String, String)> {
         }
         v.push((format!("osc-cjk{}", l), format!("\x1b]0;{}\x07y", "\u{65e5}".repeat(l / 3 + 1))));
         v.push((format!("osc-semicolons{}", l), format!("\x1b]1;{}\x07y", "a;".repeat(l / 2))));
+    }
+    for n in [21usize, 22, 31, 32, 33, 63, 64, 65, 100, 300] {
+        v.push((format!("marks-on-x{}", n), format!("x{}y", "\u{301}".repeat(n))));
+        v.push((format!("marks-on-blank{}", n), format!("\x1b[2;2H{}z", "\u{308}".repeat(n))));
+        v.push((format!("vs-on-wide{}", n), format!("\u{30a2}{}w", "\u{fe0f}".repeat(n))));
+        v.push((format!("marks-at-margin{}", n), format!("\x1b[1;9999H#{}", "\u{301}".repeat(n))));
     }
     for l in [100usize, 1000, 5000] {
         v.push((format!("digits{}", l), format!("\x1b[{};{}Hz", "7".repeat(l), "0".repeat(l))));
